@@ -722,6 +722,30 @@ theorem execAdd_w (h : List Tgt) (p : JVal) : Pres (W h) (execAdd p) := by
   have he := exec_wake_default
   unfold execAdd; wk
 @[aesop safe apply (rule_sets := [Wk])]
+theorem procInfo_w (h : List Tgt) (pid : Nat) : Pres (W h) (procInfo pid) := by
+  unfold procInfo; wk
+@[aesop safe apply (rule_sets := [Wk])]
+theorem watcherInfo_w (h : List Tgt) (u : Nat) : Pres (W h) (watcherInfo u) := by
+  unfold watcherInfo; wk
+@[aesop safe apply (rule_sets := [Wk])]
+theorem statsProc_w (h : List Tgt) (w : Watcher) (p : Int) : Pres (W h) (statsProc w p) := by
+  unfold statsProc; wk
+@[aesop safe apply (rule_sets := [Wk])]
+theorem statsWatcher_w (h : List Tgt) (u : Nat) (n : JVal) : Pres (W h) (statsWatcher u n) := by
+  unfold statsWatcher; wk
+@[aesop safe apply (rule_sets := [Wk])]
+theorem statsAllLoop_w (h : List Tgt) (ws : List Watcher) (parts : List (String × String)) :
+    Pres (W h) (statsAllLoop ws parts) := by
+  induction ws generalizing parts with
+  | nil => unfold statsAllLoop; wk
+  | cons w ws ih => unfold statsAllLoop; wk
+@[aesop safe apply (rule_sets := [Wk])]
+theorem statsAll_w (h : List Tgt) : Pres (W h) statsAll := by
+  unfold statsAll; wk
+@[aesop safe apply (rule_sets := [Wk])]
+theorem execStats_w (h : List Tgt) (p : JVal) : Pres (W h) (execStats p) := by
+  unfold execStats; wk
+@[aesop safe apply (rule_sets := [Wk])]
 theorem execReadOnly_w (h : List Tgt) (c : String) (p : JVal) : Pres (W h) (execReadOnly c p) := by
   have he := exec_wake_default
   unfold execReadOnly; wk
